@@ -188,3 +188,282 @@ theorem mmsgLoop_fuel (all : List Dgram) (count f1 f2 i nsent : Nat) (r : Int) (
       · rfl
 
 end UvModel.Udp
+
+/-! ## receive path -/
+namespace UvModel.Udp
+
+def hasChunk (flags : Nat) : Bool := flags / FLAG_CHUNK % 2 == 1
+
+/-- tiny specification of the buffer protocol: after `n` alloc_cb calls the handle is `idle` (owes nothing),
+`refused` (alloc gave no buffer: one UV_ENOBUFS callback without buffer is due) or `owed len` (buffer n-1 of
+length len is out: MMSG_CHUNK callbacks may point into it, exactly one non-chunk callback returns it) -/
+inductive PMode
+  | idle | refused | owed (len : Nat)
+  deriving DecidableEq, Repr
+
+structure PSt where
+  n : Nat
+  m : PMode
+  deriving DecidableEq, Repr
+
+def pstep (p : PSt) : REv → Option PSt
+  | .alloc len =>
+    match p.m with
+    | .idle => some ⟨p.n + 1, if len = 0 then .refused else .owed len⟩
+    | _ => none
+  | .cb args =>
+    match p.m, args.buf with
+    | .refused, none => if args.nread = UV_ENOBUFS then some ⟨p.n, .idle⟩ else none
+    | .owed len, some b =>
+      if b.a + 1 = p.n then
+        if hasChunk args.flags then (if b.off + b.len ≤ len then some p else none)
+        else if b.off = 0 ∧ b.len = len then some ⟨p.n, .idle⟩ else none
+      else none
+    | _, _ => none
+
+def runP (p : PSt) (evs : List REv) : Option PSt := evs.foldlM pstep p
+
+theorem runP_append (p : PSt) (a b : List REv) : runP p (a ++ b) = (runP p a).bind (fun p' => runP p' b) := by
+  simp [runP, List.foldlM_append]
+
+theorem runP_snoc {p0 p p' : PSt} {evs : List REv} {e : REv} (h : runP p0 evs = some p) (hs : pstep p e = some p') :
+    runP p0 (evs ++ [e]) = some p' := by
+  rw [runP_append, h]; simp [runP, hs]
+
+theorem takeDgs_length (n : Nat) (q : List RItem) : (takeDgs n q).1.length ≤ n := by
+  induction n generalizing q with
+  | zero => simp [takeDgs]
+  | succ n ih =>
+    match q with
+    | [] => simp [takeDgs]
+    | .dg d :: t => simp [takeDgs]; exact ih t
+    | .err e :: t => simp [takeDgs]
+    | .brk :: t => simp [takeDgs]
+
+/-- recvmmsg with room for ≥ 1 message: an error, or between 1 and vlen datagrams -/
+theorem kRecvmmsg_ok (vlen : Nat) (hv : 1 ≤ vlen) (q : List RItem) :
+    ∀ ds, (kRecvmmsg vlen q).1 = .ok ds → ds ≠ [] ∧ ds.length ≤ vlen := by
+  induction q with
+  | nil => intro ds h; have : vlen ≠ 0 := by omega
+           simp [kRecvmmsg, this] at h
+  | cons it t ih =>
+    cases it with
+    | brk => simpa [kRecvmmsg] using ih
+    | err e =>
+      have : vlen ≠ 0 := by omega
+      simp only [kRecvmmsg, this, if_false]
+      split
+      · exact ih
+      · intro ds h; simp at h
+    | dg d =>
+      intro ds h
+      simp only [kRecvmmsg] at h
+      injection h with h
+      subst h
+      refine ⟨?_, takeDgs_length _ _⟩
+      obtain ⟨v, rfl⟩ : ∃ v, vlen = v + 1 := ⟨vlen - 1, by omega⟩
+      simp [takeDgs]
+
+section
+variable {σ : Type} (u : RecvUser σ)
+
+/-- the user does not call uv_udp_recv_stop from inside a UV_UDP_MMSG_CHUNK callback -/
+def NoStopInChunk : Prop := ∀ s a, hasChunk a.flags = true → u.recvSet s = true → u.recvSet (u.cb s a) = true
+/-- alloc_cb does not stop the handle (it would make libuv call a NULL recv_cb) -/
+def AllocKeeps : Prop := ∀ s, u.recvSet (u.alloc s).1 = u.recvSet s
+
+theorem chunkLoop_paired (hC : NoStopInChunk u) (a len : Nat) (p0 : PSt) :
+    ∀ (ds : List RDg) (k : Nat) (s : σ) (evs : List REv), u.recvSet s = true →
+      (k + ds.length) * DGRAM_MAX ≤ len →
+      runP p0 evs = some ⟨a + 1, .owed len⟩ →
+      u.recvSet (chunkLoop u a ds k s evs).1 = true ∧ runP p0 (chunkLoop u a ds k s evs).2 = some ⟨a + 1, .owed len⟩ := by
+  intro ds
+  induction ds with
+  | nil => intro k s evs hs _ hp; exact ⟨hs, hp⟩
+  | cons d ds ih =>
+    intro k s evs hs hb hp
+    simp only [chunkLoop, hs, if_true]
+    have hfl : hasChunk (FLAG_CHUNK + if d.trunc = true then FLAG_PARTIAL else 0) = true := by
+      cases d.trunc <;> decide
+    apply ih
+    · exact hC _ _ hfl hs
+    · simp only [List.length_cons] at hb
+      have : k + 1 + ds.length = k + (ds.length + 1) := by omega
+      rw [this]; exact hb
+    · apply runP_snoc hp
+      simp only [pstep, hfl, if_true]
+      have : k * DGRAM_MAX + DGRAM_MAX ≤ len := by
+        simp only [List.length_cons] at hb
+        have h1 : (k + 1) * DGRAM_MAX ≤ (k + (ds.length + 1)) * DGRAM_MAX := Nat.mul_le_mul_right _ (by omega)
+        rw [Nat.add_mul] at h1; omega
+      simp [this]
+
+theorem chunks_pos {len : Nat} (hlen : DGRAM_MAX ≤ len) : 1 ≤ min (len / DGRAM_MAX) 20 := by
+  have : 1 ≤ len / DGRAM_MAX := (Nat.one_le_div_iff (by decide)).mpr hlen
+  omega
+
+theorem recvmmsg_nread (a len : Nat) (hlen : DGRAM_MAX ≤ len) (s : σ) (q : List RItem) :
+    (recvmmsg u a len s q).nread = -1 ∨ 1 ≤ (recvmmsg u a len s q).nread := by
+  have hk := kRecvmmsg_ok _ (chunks_pos hlen) q
+  unfold recvmmsg
+  generalize kRecvmmsg (min (len / DGRAM_MAX) 20) q = kr at hk
+  match kr, hk with
+  | (.err e, q'), _ => left; rfl
+  | (.ok [], q'), hk => exact absurd rfl (hk [] rfl).1
+  | (.ok (d :: ds), q'), _ =>
+    right
+    simp only [recvmmsgK]
+    split <;> simp <;> omega
+
+theorem recvmmsg_paired (hC : NoStopInChunk u) (a len : Nat) (hlen : DGRAM_MAX ≤ len) (p0 : PSt)
+    (s : σ) (q : List RItem) (evs : List REv) (hs : u.recvSet s = true)
+    (hp : runP p0 evs = some ⟨a + 1, .owed len⟩) :
+    runP p0 (evs ++ (recvmmsg u a len s q).evs) = some ⟨a + 1, .idle⟩ := by
+  have hk := kRecvmmsg_ok _ (chunks_pos hlen) q
+  unfold recvmmsg
+  generalize kRecvmmsg (min (len / DGRAM_MAX) 20) q = kr at hk
+  match kr, hk with
+  | (.err e, q'), _ =>
+    apply runP_snoc hp
+    simp [pstep, hasChunk, FLAG_CHUNK]
+  | (.ok [], q'), hk => exact absurd rfl (hk [] rfl).1
+  | (.ok (d :: ds), q'), hk =>
+    have hl := (hk _ rfl).2
+    have hb : (0 + (d :: ds).length) * DGRAM_MAX ≤ len := by
+      rw [Nat.zero_add]
+      have h1 : (d :: ds).length ≤ len / DGRAM_MAX := by omega
+      have := Nat.mul_le_mul_right DGRAM_MAX h1
+      have h2 := Nat.div_mul_le_self len DGRAM_MAX
+      omega
+    have hc := chunkLoop_paired u hC a len ⟨a + 1, .owed len⟩ (d :: ds) 0 s [] hs hb rfl
+    simp only [recvmmsgK, hc.1, if_true]
+    rw [← List.append_assoc]
+    apply runP_snoc (p := ⟨a + 1, .owed len⟩)
+    · rw [runP_append, hp]; exact hc.2
+    · simp [pstep, hasChunk, FLAG_CHUNK, FLAG_FREE]
+
+/-- every alloc'd buffer is handed back exactly once; the loop stops within its fuel -/
+theorem recvLoop_paired (hC : NoStopInChunk u) (hA : AllocKeeps u) :
+    ∀ (f a : Nat) (count : Int) (s : σ) (q : List RItem) (evs : List REv),
+      u.recvSet s = true → runP ⟨0, .idle⟩ evs = some ⟨a, .idle⟩ →
+      ∃ n, runP ⟨0, .idle⟩ (recvLoop u f a count s q evs).evs = some ⟨n, .idle⟩ := by
+  intro f
+  induction f with
+  | zero => intro a count s q evs _ hp; exact ⟨a, hp⟩
+  | succ f ih =>
+    intro a count s q evs hs hp
+    have hs' : u.recvSet (u.alloc s).1 = true := by rw [hA]; exact hs
+    simp only [recvLoop]
+    split
+    · rename_i h0
+      refine ⟨a + 1, ?_⟩
+      apply runP_snoc (p := ⟨a + 1, .refused⟩)
+      · apply runP_snoc hp; simp [pstep, h0]
+      · simp [pstep]
+    · rename_i h0
+      have hp1 : runP ⟨0, .idle⟩ (evs ++ [.alloc (u.alloc s).2]) = some ⟨a + 1, .owed (u.alloc s).2⟩ := by
+        apply runP_snoc hp; simp [pstep, h0]
+      split
+      · rename_i hm
+        have hpm := recvmmsg_paired u hC a _ hm.2 ⟨0, .idle⟩ (u.alloc s).1 q _ hs' hp1
+        split
+        · rename_i hc
+          exact ih _ _ _ _ _ (by simpa using hc.2.2.2) hpm
+        · exact ⟨_, hpm⟩
+      · have hp2 : runP ⟨0, .idle⟩ (evs ++ [.alloc (u.alloc s).2] ++
+            [.cb (plainArgs ⟨a, 0, (u.alloc s).2⟩ (kRecvmsg q).1)]) = some ⟨a + 1, .idle⟩ := by
+          apply runP_snoc hp1
+          cases (kRecvmsg q).1 <;> simp [pstep, plainArgs, hasChunk, FLAG_CHUNK, FLAG_PARTIAL] <;>
+            (split <;> simp)
+        split
+        · exact ⟨_, hp2⟩
+        · split
+          · rename_i hc
+            exact ih _ _ _ _ _ (by simpa using hc.2.2) hp2
+          · exact ⟨_, hp2⟩
+
+/-- the budget loop terminates: with fuel ≥ count the model never runs out of fuel -/
+theorem recvLoop_terminates :
+    ∀ (f a : Nat) (count : Int) (s : σ) (q : List RItem) (evs : List REv),
+      0 < count → count ≤ f → (recvLoop u f a count s q evs).spun = false := by
+  intro f
+  induction f with
+  | zero => intro a count s q evs h1 h2; omega
+  | succ f ih =>
+    intro a count s q evs h1 h2
+    simp only [recvLoop]
+    split
+    · rfl
+    · split
+      · rename_i hm
+        have hn := recvmmsg_nread u a _ hm.2 (u.alloc s).1 q
+        split
+        · rename_i hc
+          apply ih
+          · exact hc.2.1
+          · unfold mmsgCount; split <;> omega
+        · rfl
+      · split
+        · rfl
+        · split
+          · rename_i hc
+            apply ih
+            · exact hc.1
+            · omega
+          · rfl
+
+@[simp] def isAlloc : REv → Bool
+  | .alloc _ => true
+  | _ => false
+
+theorem chunkLoop_allocs (a : Nat) : ∀ (ds : List RDg) (k : Nat) (s : σ) (evs : List REv),
+    (chunkLoop u a ds k s evs).2.countP isAlloc = evs.countP isAlloc := by
+  intro ds
+  induction ds with
+  | nil => intros; rfl
+  | cons d ds ih =>
+    intro k s evs
+    simp only [chunkLoop]
+    split
+    · rw [ih]; simp
+    · rfl
+
+theorem recvmmsg_allocs (a len : Nat) (s : σ) (q : List RItem) :
+    (recvmmsg u a len s q).evs.countP isAlloc = 0 := by
+  unfold recvmmsg
+  generalize kRecvmmsg (min (len / DGRAM_MAX) 20) q = kr
+  match kr with
+  | (.err e, q') => simp [recvmmsgK]
+  | (.ok [], q') => simp [recvmmsgK]
+  | (.ok (d :: ds), q') =>
+    have := chunkLoop_allocs u a (d :: ds) 0 s []
+    simp only [recvmmsgK]
+    split <;> simp_all
+
+/-- at most `fuel` alloc_cb calls (= loop iterations) per invocation -/
+theorem recvLoop_allocs :
+    ∀ (f a : Nat) (count : Int) (s : σ) (q : List RItem) (evs : List REv),
+      (recvLoop u f a count s q evs).evs.countP isAlloc ≤ evs.countP isAlloc + f := by
+  intro f
+  induction f with
+  | zero => intros; simp [recvLoop]
+  | succ f ih =>
+    intro a count s q evs
+    simp only [recvLoop]
+    split
+    · simp [List.countP_cons, List.countP_append]
+    · split
+      · have hm := recvmmsg_allocs u a (u.alloc s).2 (u.alloc s).1 q
+        split
+        · refine Nat.le_trans (ih _ _ _ _ _) ?_
+          simp [List.countP_cons, List.countP_append, hm]; omega
+        · simp [List.countP_cons, List.countP_append, hm]
+      · split
+        · simp [List.countP_cons, List.countP_append]
+        · split
+          · refine Nat.le_trans (ih _ _ _ _ _) ?_
+            simp [List.countP_cons, List.countP_append]; omega
+          · simp [List.countP_cons, List.countP_append]
+end
+
+end UvModel.Udp
